@@ -447,7 +447,7 @@ func (C09) Explore(x *kernel.Explorer, seed uint64) {
 	r := kernel.NewRNG(seed, 0xc09)
 	for i := 0; i < 4 && !x.Expired(); i++ {
 		plan := &kernel.Plan{Prop: "C09", Seed: kernel.Mix(seed, uint64(i)), Swarm: map[string]int64{
-			"chunk": int64(r.Intn(4)), "env": int64(r.Intn(2)), "typed": int64(r.Intn(2)), "params": int64(r.Intn(2))}}
+			"chunk": int64(r.Intn(4)), "env": int64(r.Intn(2)), "typed": int64(r.Intn(2)), "params": int64(r.Intn(2)), "mysql": int64(r.Intn(3) / 2), "depeof": int64(r.Intn(2))}}
 		n := 2 + r.Intn(7)
 		for j := 0; j < n; j++ {
 			plan.Ops = append(plan.Ops, kernel.Op{ID: j + 1, Kind: "row", A: []int64{int64(r.Intn(6))}})
@@ -479,12 +479,23 @@ func (C09) Run(t *testing.T, plan *kernel.Plan, keepLog bool) *kernel.Result {
 		if plan.Sw("typed") == 1 {
 			col.DataType = "str"
 		}
-		pw, names, err := colWorld(w, plan, rng, []colKind{col})
+		mysql := plan.Sw("mysql") == 1
+		var pw *PgWorld
+		var names []string
+		var err error
+		if mysql {
+			pw, names, err = myColWorld(w, plan, rng, []colKind{col})
+		} else {
+			pw, names, err = colWorld(w, plan, rng, []colKind{col})
+		}
 		if err != nil {
 			w.Violate("C09", "world-builds", "pg", err.Error())
 			return
 		}
 		site := "pg/" + col.describe()
+		if mysql {
+			site = "mysql/" + col.describe()
+		}
 		var values []string
 		var script []Stmt
 		for _, op := range plan.Ops {
@@ -493,6 +504,10 @@ func (C09) Run(t *testing.T, plan *kernel.Plan, keepLog bool) *kernel.Result {
 			}
 			v := c09Values[int(op.Arg(0, 0))%6]
 			values = append(values, v)
+			if mysql {
+				script = append(script, myInsertStmt(names, len(values), "p", []string{v}, []colKind{col}, plan.Sw("params") == 1, len(values)%2))
+				continue
+			}
 			script = append(script, insertStmt(names, len(values), []string{v}, []colKind{col}, plan.Sw("params") == 1))
 		}
 		type search struct {
@@ -516,6 +531,9 @@ func (C09) Run(t *testing.T, plan *kernel.Plan, keepLog bool) *kernel.Result {
 			if usePar {
 				st.Extended, st.Params = true, [][]byte{[]byte(s.val)}
 				lit = "$1"
+				if mysql {
+					st.Args, lit = []interface{}{s.val}, "?"
+				}
 			}
 			switch s.shape {
 			case 1:
@@ -532,6 +550,9 @@ func (C09) Run(t *testing.T, plan *kernel.Plan, keepLog bool) *kernel.Result {
 				if usePar {
 					st.Params = append(st.Params, []byte(val2))
 					lit2 = "$2"
+					if mysql {
+						st.Args, lit2 = append(st.Args, val2), "?"
+					}
 				}
 				st.SQL = "SELECT id FROM t1 WHERE c1 = " + lit + " OR c1 = " + lit2
 			default:
@@ -614,6 +635,9 @@ func (C09) Run(t *testing.T, plan *kernel.Plan, keepLog bool) *kernel.Result {
 				r2 := pw.RunSession(owner, []Stmt{{SQL: "SELECT id, plain, c1 FROM t1 WHERE id = 1"}})
 				if len(r2.Results[0].Rows) == 1 {
 					cell := decodeClientCell(17, 0, r2.Results[0].Rows[0][2])
+					if mysql {
+						cell = r2.Results[0].Rows[0][2]
+					}
 					if string(cell) == values[0] {
 						w.Violate("C09", "mismatched-index-not-handed-out", site, fmt.Sprintf("a cell whose index belongs to %q was revealed as %q", values[1], values[0]))
 					}
